@@ -63,7 +63,17 @@ Fanout ==
         /\ Chk("others_untouched", e.others_unchanged)
   /\ UNCHANGED B
 
-Next == Reset \/ Rate \/ NoRoute \/ Size \/ Fanout
+\* publish through the MCP tool messages_publish (direct database mode): the same admission rule as every other
+\* enqueue - with the reject policy a batch is admitted only if it fits under max_depth, and a refusal stores nothing
+McpPublish ==
+  /\ IsEvent("McpPublish")
+  /\ LET e == Trace[l]
+     IN /\ Chk("mcp_publish_fits_accepted", e.room >= e.items => (~e.refused /\ e.stored = e.items))
+        /\ Chk("mcp_publish_over_depth_refused", e.room < e.items => (e.refused /\ e.stored = 0))
+        /\ Chk("mcp_publish_others_untouched", e.pre_kept)
+  /\ UNCHANGED B
+
+Next == Reset \/ Rate \/ NoRoute \/ Size \/ Fanout \/ McpPublish
 Spec == Init /\ [][Next]_vars
 TraceAccepted ==
   LET d == TLCGet("stats").diameter
